@@ -86,8 +86,9 @@ impl<'a> ast::FieldAccess<'a> {
 impl<'a> ast::FuncCall<'a> {
     #[verifier::external_body]
     pub fn callee(self) -> (r: ast::Expr<'a>) requires self.wf(), tree_wf(self.0) ensures r.wf(), is_child_of(r.node(), self.0) { unimplemented!() }
+    pub uninterp spec fn args_s(self) -> &'a SyntaxNode;
     #[verifier::external_body]
-    pub fn args(self) -> (r: ast::Args<'a>) requires self.wf(), tree_wf(self.0) ensures r.wf(), is_child_of(r.node(), self.0) { unimplemented!() }
+    pub fn args(self) -> (r: ast::Args<'a>) requires self.wf(), tree_wf(self.0) ensures r.wf(), r.0 == self.args_s(), is_child_of(r.node(), self.0), tree_wf(r.0) { unimplemented!() }
 }
 impl<'a> ast::Parenthesized<'a> {
     #[verifier::external_body]
@@ -258,3 +259,24 @@ pub proof fn lemma_sorted_wf(a: Seq<&SyntaxNode>, b: Seq<&SyntaxNode>)
         }
     }
 }
+
+// ---- function calls / tables (C01 table reflow gate) ----
+impl<'a> ast::Named<'a> {
+    #[verifier::external_body]
+    pub fn name(self) -> (r: ast::Ident<'a>) requires self.wf(), tree_wf(self.0) ensures r.wf(), is_child_of(r.node(), self.0) { unimplemented!() }
+    #[verifier::external_body]
+    pub fn expr(self) -> (r: ast::Expr<'a>) requires self.wf(), tree_wf(self.0) ensures r.wf(), is_child_of(r.node(), self.0) { unimplemented!() }
+}
+impl<'a> ast::Spread<'a> {
+    #[verifier::external_body]
+    pub fn expr(self) -> (r: ast::Expr<'a>) requires self.wf(), tree_wf(self.0) ensures r.wf(), is_child_of(r.node(), self.0) { unimplemented!() }
+}
+impl<'a> ast::Int<'a> {
+    pub uninterp spec fn value_s(self) -> i64;
+    #[verifier::external_body]
+    pub fn get(self) -> (r: i64) ensures r == self.value_s() { unimplemented!() }
+}
+/// the arguments between the parentheses of a call, as the printer enumerates them (`get_parenthesized_args`)
+pub uninterp spec fn paren_args_s<'a>(args: &'a SyntaxNode) -> Seq<ast::Arg<'a>>;
+/// source text of the callee of a call
+pub uninterp spec fn callee_text_s(call: &SyntaxNode) -> Seq<char>;
